@@ -364,6 +364,122 @@ def flatten_private_groups(crates):
     return {k: v["path"] for k, v in flat.items()}
 
 
+COLOR_TY = "cozy_chess_types::color::Color"
+
+
+def per_colour_structs_as_arrays(crates):
+    """A private generic struct with one field per colour, read through accessors that `match` on the colour and hand
+    out the field of that colour (`PerColor<T> { white, black }` with `get(Color)` / `get_mut(Color)`), is an array
+    indexed by `colour as usize` written differently.  It is read as that array: the fields become constant indices, an
+    accessor call becomes the indexed borrow, a literal becomes an array literal, its derived equality the equality of
+    arrays.  The accessors themselves are checked here: the arm of variant k must borrow field k.  -> [struct paths]"""
+    import re as _re
+    adts = {}
+    for j in crates.values():
+        for a in j["adts"]:
+            adts[a["path"]] = a
+    col = adts.get(COLOR_TY)
+    if not col or col["kind"] != "Enum":
+        return []
+    n = len(col["variants"])
+    done = []
+    for path, a in sorted(adts.items()):
+        if a["kind"] != "Struct" or a.get("pub") or not path.startswith("cozy_chess::"):
+            continue
+        fields = a["variants"][0]["fields"]
+        if len(fields) != n or len({fl["ty"] for fl in fields}) != 1 or "::" in fields[0]["ty"] or not fields[0]["ty"].isidentifier():
+            continue
+        fnames = [fl["name"] for fl in fields]
+        # accessors: (&self | &mut self, Color) -> &T | &mut T, arm k borrows field k
+        accessors = {}
+        ok = True
+        for j in crates.values():
+            for bj in j["bodies"]:
+                isf = bj.get("impl_self") or ""
+                if not isf.startswith(path + "<"):
+                    continue
+                argc = bj.get("argc", 0)
+                locs = bj["locals"]
+                if argc == 2 and locs[2]["ty"] == COLOR_TY and locs[0]["ty"].startswith("&") and locs[1]["ty"].startswith("&"):
+                    arms = None
+                    for blk in bj["blocks"]:
+                        t = blk["term"]
+                        if t["k"] == "switch":
+                            arms = {v_: b_ for v_, b_ in t["arms"]}
+                            if t.get("otherwise") is not None and len(arms) == n - 1:
+                                missing = [k_ for k_ in range(n) if k_ not in arms]
+                                if len(missing) == 1 and bj["blocks"][t["otherwise"]]["term"]["k"] != "unreachable":
+                                    arms[missing[0]] = t["otherwise"]
+                    good = arms is not None and sorted(arms) == list(range(n))
+                    for k_ in (range(n) if good else ()):
+                        refs = [st["rv"]["pl"]["p"] for st in bj["blocks"][arms[k_]]["stmts"]
+                                if st["k"] == "assign" and st["rv"]["k"] == "ref" and len(st["rv"]["pl"]["p"]) == 2 and isinstance(st["rv"]["pl"]["p"][1], dict)]
+                        if not any(p_[0] == "deref" and p_[1].get("n") == fnames[k_] and st_l == 1 for p_, st_l in
+                                   [(st["rv"]["pl"]["p"], st["rv"]["pl"]["l"]) for st in bj["blocks"][arms[k_]]["stmts"]
+                                    if st["k"] == "assign" and st["rv"]["k"] == "ref" and len(st["rv"]["pl"]["p"]) == 2 and isinstance(st["rv"]["pl"]["p"][1], dict)]):
+                            good = False
+                    if good:
+                        accessors[bj.get("key") or bj.get("path")] = locs[0]["ty"].startswith("&mut")
+                    else:
+                        ok = False
+        if not ok or not accessors:
+            continue
+        pat = _re.compile(_re.escape(path) + r"<([^<>]*)>")
+        arr = lambda m_: "[%s; %d]" % (m_.group(1), n)
+
+        def retype(x):
+            if isinstance(x, str):
+                return pat.sub(arr, x) if path in x else x
+            if isinstance(x, list):
+                return [retype(y) for y in x]
+            if isinstance(x, dict):
+                return {k_: retype(v_) for k_, v_ in x.items()}
+            return x
+        for j in crates.values():
+            for bi_, bj in enumerate(j["bodies"]):
+                key_ = bj.get("key") or bj.get("path")
+                for blk in bj["blocks"]:
+                    for st in blk["stmts"]:
+                        if st.get("k") != "assign":
+                            continue
+                        rv = st["rv"]
+                        if rv.get("k") == "agg" and rv.get("adt") == path:
+                            order = {nm: o for nm, o in zip(rv["fields"], rv["ops"])}
+                            st["rv"] = {"k": "agg", "ak": "array", "ty": "?", "ops": [order[nm] for nm in fnames]}
+                    t = blk["term"]
+                    if t.get("k") == "call":
+                        cn = t["callee"].get("res") or t["callee"].get("fn")
+                        if cn in accessors and t.get("t") is not None and t["args"][0].get("k") in ("move", "copy") and not t["args"][0]["pl"]["p"]:
+                            locs = bj["locals"]
+                            base = len(locs)
+                            locs += [{"ty": COLOR_TY}, {"ty": "isize"}, {"ty": "usize"}]
+                            sp = t["sp"]
+                            selfty = retype(locs[t["args"][0]["pl"]["l"]]["ty"]).lstrip("&").replace("mut ", "").strip()
+                            blk["stmts"] += [
+                                {"k": "assign", "pl": {"l": base, "p": []}, "rv": {"k": "use", "op": t["args"][1]}, "sp": sp},
+                                {"k": "assign", "pl": {"l": base + 1, "p": []}, "rv": {"k": "discr", "pl": {"l": base, "p": []}, "of": COLOR_TY}, "sp": sp},
+                                {"k": "assign", "pl": {"l": base + 2, "p": []}, "rv": {"k": "cast", "ck": "int2int", "ckd": "IntToInt", "op": {"k": "move", "pl": {"l": base + 1, "p": []}}, "from": "isize", "ty": "usize"}, "sp": sp},
+                                {"k": "assign", "pl": t["dest"], "rv": {"k": "ref", "mut": accessors[cn], "pl": {"l": t["args"][0]["pl"]["l"], "p": ["deref", {"idx": base + 2, "of": selfty}]}}, "sp": sp},
+                            ]
+                            blk["term"] = {"k": "goto", "t": t["t"], "sp": sp}
+                        elif cn and cn.startswith("<" + path + "<") and cn.endswith("core::cmp::PartialEq>::eq"):
+                            t["callee"] = dict(t["callee"], res="<[T; N] as core::cmp::PartialEq<[U; N]>>::eq", rlocal=False, local=False, krate="core", rkrate="core")
+                # field projections -> constant indices
+                def fix(x):
+                    if isinstance(x, list):
+                        return [fix(y) for y in x]
+                    if isinstance(x, dict):
+                        if "f" in x and "n" in x and isinstance(x.get("of"), str) and x["of"].startswith(path + "<") and x["n"] in fnames:
+                            return {"cidx": fnames.index(x["n"]), "of": x["of"]}
+                        return {k_: fix(v_) for k_, v_ in x.items()}
+                    return x
+                bj["blocks"] = fix(bj["blocks"])
+                j["bodies"][bi_] = retype(bj)
+            j["adts"] = [retype(a_) for a_ in j["adts"]]
+        done.append(path)
+    return done
+
+
 class Facts:
     """All crates of one configuration."""
 
@@ -385,6 +501,7 @@ class Facts:
             if name in self.crates and len(self.crates[name]["features"]) >= len(j["features"]):
                 continue
             self.crates[name] = j
+        self.per_colour_arrays = per_colour_structs_as_arrays(self.crates)
         self.flattened = flatten_private_groups(self.crates)
         self.bodies = {}
         for cname, j in self.crates.items():
